@@ -20,7 +20,7 @@ def main():
         if args[0] == "--src": SRC = args[1]
         if args[0] == "--tag": TAG = args[1]
         args = args[2:]
-    ids = args or sorted(os.path.basename(d) for d in glob.glob(SRC + "/C??") if os.path.isdir(d))
+    ids = args or sorted(os.path.basename(d) for d in glob.glob(SRC + "/[CF]*") if os.path.isdir(d))
     sh("git -C /repo worktree remove --force %s" % WT)
     rc, out = sh("git -C /repo worktree add -q --detach %s HEAD" % WT)
     if rc != 0:
@@ -42,7 +42,7 @@ def main():
                     rc, out = sh("patch -p1 --fuzz=3 --no-backup-if-mismatch -i %s" % patch, WT)
                 if rc != 0:
                     print(name, "PATCH DOES NOT APPLY:", out[:300]); continue
-                race = "-race " if pid == "C18" else ""
+                race = "-race " if pid == "C18" or (os.path.exists(os.path.join(md, "notes.md")) and "-race" in open(os.path.join(md, "notes.md")).read()) else ""
                 rc, out = sh("go build ./... && go test -vet=off -count=1 ./...", WT)
                 suite_ok = rc == 0
                 shutil.copy(demo, os.path.join(WT, "zz_seeded_demo_test.go"))
@@ -68,7 +68,17 @@ def main():
                 if os.path.exists(os.path.join(md, "notes.md")):
                     shutil.copy(os.path.join(md, "notes.md"), os.path.join(dst, "notes.md"))
                 head = subprocess.run("git -C /repo rev-parse --short HEAD", shell=True, capture_output=True, text=True).stdout.strip()
-                meta = {"id": name, "breaks_property": pid, "source": "independent sub-agent given only the property text and a scratch worktree",
+                prop = pid
+                mentioned = []
+                if not pid.startswith("C"):
+                    import re
+                    notes = open(os.path.join(md, "notes.md")).read() if os.path.exists(os.path.join(md, "notes.md")) else ""
+                    mentioned = []
+                    for m_ in re.findall(r"\bC(?:0[1-9]|1[0-9]|20)\b", notes):
+                        if m_ not in mentioned:
+                            mentioned.append(m_)
+                    prop = mentioned[0] if mentioned else "C04"
+                meta = {"id": name, "breaks_property": prop, "also_mentioned": mentioned[1:4], "source": "independent sub-agent given only the property text and a scratch worktree",
                         "needs_to_manifest": "see notes.md",
                         "confirmed_at_repo_commit": head,
                         "confirmation": {"existing_suite_passes_with_patch": True, "demo_fails_with_patch": True, "demo_passes_without_patch": True,
